@@ -579,6 +579,13 @@ class Cluster(object):
         def finish():
             pt, rs, _tot, _e = self._fetch_eval(broker, ev, act)
             ev["result"] = rs
+            if act.kind == "corrupt":
+                # one bit of the last byte of each partition's record data is flipped in transit: the last
+                # message (or wrapper) of the reply fails its CRC, everything before it is intact
+                pt = [(t, [(p, err, hw, (data[:-1] + bytes([data[-1] ^ 0x10])) if data else data)
+                           for (p, err, hw, data) in parts]) for (t, parts) in pt]
+                for r_ in rs:
+                    r_["corrupted_in_transit"] = True
             reply(R.resp_fetch(ev["corr"], pt, version=ev["version"]))
         if any_error or total >= max(1, body["min_bytes"]) or body["max_wait_ms"] <= 0:
             finish()
